@@ -578,7 +578,11 @@ def _run(prop, module, ctx: Ctx, t0, ev_path: Path) -> int:
         tb = traceback.extract_tb(ex.__traceback__)
         in_code = any(str(REPO) in (fr.filename or "") or "/nuspacesim/" in (fr.filename or "") for fr in tb)
         if not in_code and not isinstance(ex, (TypeError, AttributeError)):
-            raise
+            if not ctx.violations:
+                raise
+            # the property was already seen to fail on the real code for a concrete input: report that; a later stream of the
+            # harness that cannot cope with what the failing code hands it does not take the finding away
+            ctx.notes.append("a later stream of the harness raised after a violation had been recorded: " + "".join(traceback.format_exception_only(type(ex), ex)).strip()[:200])
         ctx.disagree(f"{prop}.harness-call-into-code-raised:{type(ex).__name__}",
                      {"error": str(ex)[:300], "where": [f"{Path(fr.filename).name}:{fr.lineno}" for fr in tb[-4:]]})
         ctx.notes.append("the run was cut short by an exception raised through the code under test: " + "".join(traceback.format_exception_only(type(ex), ex)).strip()[:300])
